@@ -613,7 +613,7 @@ func VerifC14_MySQLClientPackets() {
 			return
 		}
 		// everything after the command byte is the client's; when it is long enough to name a statement, it names ours
-		tail := verif.Bytes("tail", verif.Choose("n", 0, hi+4))
+		tail := verif.Bytes("tail", verif.Choose("n", 0, hi+6))
 		if len(tail) >= 4 {
 			verif.Assume(verif.And(tail[0] == 1, tail[1] == 0, tail[2] == 0, tail[3] == 0))
 		}
